@@ -240,6 +240,63 @@ func (prop) Drive(d *core.Driver) error {
 			[]any{map[string]any{"t": pj.String(), "v": nil}, map[string]any{"t": jser.String(), "v": []any{"1"}}, map[string]any{"t": pj.String(), "v": []any{[]any{"2"}}}},
 		}})
 		add("fixed-nil-jser-in-slice", caseData{Type: TDesc{K: "slice", E: &pj}, Values: []any{[]any{[]any{[]any{"1"}}, nil}}})
+		// byte slices of every boundary length, at the top level (exact []byte, named, []MyU8) and nested in
+		// a struct, a map, a slice, a pointer and an interface
+		var lens []any
+		for _, n := range byteBoundaryLens {
+			lens = append(lens, bytesDesc(n))
+		}
+		mybytes, myu8 := TDesc{K: "named", Name: "MyBytes"}, TDesc{K: "named", Name: "MyU8"}
+		add("fixed-bytes-lengths", caseData{Type: bs, Values: lens})
+		add("fixed-bytes-lengths-named", caseData{Type: mybytes, Values: lens[:len(lens)-5], Decl: false})
+		add("fixed-bytes-lengths-u8", caseData{Type: TDesc{K: "slice", E: &myu8}, Values: lens[:len(lens)-5]})
+		pbs := TDesc{K: "ptr", E: &bs}
+		nest := TDesc{K: "struct", F: []FDesc{
+			{N: "A", T: bs}, {N: "M", T: TDesc{K: "map", Key: &strT, E: &bs}}, {N: "L", T: TDesc{K: "slice", E: &bs}},
+			{N: "P", T: pbs, Tag: `json:"p,omitempty"`}, {N: "N", T: mybytes}, {N: "I", T: anyT},
+		}}
+		var nested []any
+		for i := 0; i+5 < len(byteBoundaryLens); i += 3 {
+			l := byteBoundaryLens
+			nested = append(nested, []any{
+				bytesDesc(l[i]),
+				[]any{[]any{"k1", bytesDesc(l[i+1])}, []any{"k2", bytesDesc(l[i+2])}},
+				[]any{bytesDesc(l[i+3]), nil, bytesDesc(l[i+4])},
+				[]any{bytesDesc(l[i+5])},
+				bytesDesc(l[i+1]),
+				map[string]any{"t": bs.String(), "v": bytesDesc(l[i+2])},
+			})
+		}
+		add("fixed-bytes-lengths-nested", caseData{Type: nest, Values: nested})
+		// structs whose first one to three exported fields are omitted ("-", empty omitempty, zero omitzero,
+		// unexported) before the first shown member, at every nesting level (field, slice, map, pointer, interface)
+		lead := TDesc{K: "named", Name: "LeadOmit"}
+		plead := TDesc{K: "ptr", E: &lead}
+		lv := func(b, c, d, e string) any { return []any{"9", b, c, d, e, nil, "g"} }
+		leadVals := []any{
+			lv("1", "", "0", "e"),  // all three leading exported fields omitted
+			lv("1", "c", "0", "e"), // only "-" omitted, then one shown, then one omitted
+			lv("1", "", "5", ""),   // "-" and omitempty omitted, omitzero shown
+			lv("0", "c", "5", "e"), // only "-" omitted
+		}
+		add("fixed-leading-omitted", caseData{Type: lead, Values: leadVals, Decl: true})
+		outer := TDesc{K: "struct", F: []FDesc{
+			{N: "A", T: intT, Tag: `json:"-"`},
+			{N: "B", T: TDesc{K: "slice", E: &lead}, Tag: `json:"b,omitempty"`},
+			{N: "Cc", T: lead, Tag: `json:"c"`},
+			{N: "D1", T: TDesc{K: "map", Key: &strT, E: &lead}},
+			{N: "E_x", T: plead, Tag: `json:",omitzero"`},
+			{N: "Ff", T: anyT},
+		}}
+		var outerVals []any
+		for i := range leadVals {
+			x, y := leadVals[i], leadVals[(i+1)%len(leadVals)]
+			outerVals = append(outerVals,
+				[]any{"3", []any{}, x, []any{[]any{"k", y}, []any{"l", x}}, nil, map[string]any{"t": lead.String(), "v": y}},
+				[]any{"3", []any{x, y}, y, nil, []any{x}, map[string]any{"t": plead.String(), "v": []any{x}}})
+		}
+		add("fixed-leading-omitted-nested", caseData{Type: outer, Values: outerVals, Decl: true})
+		add("fixed-leading-omitted-slice", caseData{Type: TDesc{K: "slice", E: &outer}, Values: []any{outerVals}})
 		zt := timeDesc(time.Time{})
 		t20 := timeDesc(time.Date(2020, 1, 2, 3, 4, 5, 0, time.UTC))
 		add("fixed-tag-options", caseData{Type: TDesc{K: "named", Name: "Opts"}, Values: []any{
@@ -349,8 +406,8 @@ func (st *state) violation(ctx string, td TDesc, vd any, rv reflect.Value, rende
 	}
 	st.res.Status = core.Violation
 	vj, _ := json.Marshal(vd)
-	st.res.Detail = fmt.Sprintf("context %s\ngo type: %s\ntype description: %s\nvalue description: %s\nrendered: %s\nproblem: %v",
-		ctx, typeString(rv, td), td, clip(string(vj), 1500), clip(strconv.QuoteToASCII(rendered), 1500), err)
+	st.res.Detail = fmt.Sprintf("context %s\nproblem: %s\ngo type: %s\ntype description: %s\nvalue description: %s\nrendered: %s",
+		ctx, clip(err.Error(), 1200), typeString(rv, td), clip(td.String(), 1200), clip(string(vj), 1200), clip(strconv.QuoteToASCII(rendered), 1500))
 }
 
 func typeString(rv reflect.Value, td TDesc) string {
